@@ -16,6 +16,10 @@ INFO = {
    text="Lean 4 theorems for EVERY date of year >= 1 and EVERY offset, against an independent ordinal-day calendar: next = ordinal+1 and stays real, prev(next d)=d, add n days then subtract n days is the identity and moves n ordinals, the weekday formula equals ordinal mod 7 (hence consecutive weekdays across all boundaries), - n months / years lands on the calendar-correct month or reports non-existence, accepted literals are real dates of year 1000..i32::MAX. Tied to the Rust by differential runs through fend_core::evaluate (date chains, literal grammar; every day 1000-9999 in the thorough tier) with Python datetime as independent search oracle.",
    note="Trusted: Lean kernel + 3 axioms; the ordinal calendar in Model/Date.lean as the meaning of 'proleptic Gregorian' (cross-checked against Python datetime on every run); model tied to the code by correspondence only. Literal completeness (every real date IS accepted) is carried by correspondence + decide examples, soundness is proved. BC dates are outside the property.",
    technique="Lean 4 refinement proof (date code -> ordinal calendar, omega) + differential correspondence", ref="7/C16"),
+ "C10": dict(
+   text="Lean 4 theorems for all arguments: fibonacci = the Fibonacci recurrence, factorial = n! (never fails), one-bit left/right shift = *2 and /2 on values for every limb vector, the rounding decision of floor/ceil/round yields the integer z with z <= x < z+1 / z-1 < x <= z / nearest with ties away from zero, and the greedy roman decomposition denotes n. Executable Lean models of nCr/nPr, mod, and/or/xor, multi-bit shifts, words, roman, char are diffed against the implementation on every run (raw limb vectors through the hooks, BigRat level, text level, and API level with arguments produced by cancelling histories) with Python int/Fraction arithmetic and independent text readers as search oracles.",
+   note="Proved: fib, factorial, shl1/shr1, rounding decision, roman denotation. Carried by correspondence + oracle only (no theorem yet): bitwise and/or/xor, lshift_n/rshift_n composition, nCr/nPr, mod, to_words, char/codepoint, and the divmod that floor/ceil/round call. Trusted: Lean kernel + 3 axioms, harness/python.",
+   technique="Lean 4 refinement proofs (BigUint -> Nat functions) + differential correspondence", ref="7/C10"),
 }
 def main():
     hooks = subprocess.check_output("git -C /repo log --format=%H --grep='verif-hooks' --grep='verif hooks' -i", shell=True, text=True).split()
